@@ -966,6 +966,20 @@ def mc_cond(tier):
                           "Filtered: a program and its filtered text build to the same result -- for every well-formed program of up to %d lines "
                           "(nesting <= 3) over {.if 0/1, .if K==1, .ifdef/.ifndef, .elif 0/1, .else, .endif, .define, marker, garbage}" % (6 if tier == "quick" else 7))
         mc["broken_variant"] = "the reader without a taken flag (the implementation before fix fd04ac7) violates SelectedAgree after %d states" % rb.distinct
+        # the stack on its own, for programs of any length (every step is the next line of some program)
+        mm = model_check("MC_CondMachine", sc, cfg="MC_CondMachine" if tier == "quick" else "MC_CondMachine_thorough", workers=8, xmx="8g", coverage=False, timeout=3000)
+        rb2 = run_tlc("MC_CondMachine", cfg="MC_CondMachine_broken", workdir=sc.dir, timeout=600, workers=2, xmx="2g")
+        if "Invariant Agree is violated" not in rb2.out:
+            raise ToolError("non-vacuity: the stack without a taken flag must violate Agree")
+        mm["theorems"] = ("for programs of any length with nesting <= %d (all reachable states of the stack machine of Cond.tla): Agree (a line is assembled iff every "
+                          "enclosing construct stands in its chosen branch, the choice recorded independently of the stack), AtMostOne, NoPeek (a condition that is not "
+                          "evaluated influences nothing), Decides; JudgeComplete / JudgeSound: the judge of the reader's line events (ReaderJudge.tla, used by "
+                          "Trace_Pipeline) accepts what the reference reader reports for every next line and follows its stack, and rejects the same line reported the "
+                          "other way round" % (6 if tier == "quick" else 8))
+        mm["broken_variant"] = "the stack without a taken flag violates Agree after %d states" % rb2.distinct
+        mc["machine"] = mm
+        mc["states"] += mm["states"]
+        mc["transitions"] += mm["transitions"]
         return mc
     finally:
         sc.cleanup()
@@ -1367,8 +1381,26 @@ def mixed(s):
     return "".join(c.upper() if i % 2 == 0 else c for i, c in enumerate(s))
 
 
+def mc_macro(tier):
+    """Model-checks the macro machinery of the specification itself (MC_Macro) and its broken variant."""
+    sc = Scratch("C09-mc")
+    try:
+        mc = model_check("MC_Macro", sc, cfg="MC_Macro" if tier == "quick" else "MC_Macro_thorough", workers=8, xmx="12g", coverage=False, timeout=3000)
+        rb = run_tlc("MC_Macro", cfg="MC_Macro_broken", workdir=sc.dir, timeout=600, workers=2, xmx="2g")
+        if "Invariant HandExpanded is violated" not in rb.out:
+            raise ToolError("non-vacuity: an expansion that does not keep an argument a unit must violate HandExpanded")
+        mc["theorems"] = ("HandExpanded: every program (a macro body of up to 4 lines over {instruction and data using both parameters, .if on a parameter, .ifdef, .else, "
+                          ".endif, nested call, segment switches}, up to %d top-level lines before and after the definitions: calls with four argument sets incl. a "
+                          "missing argument, .define, plain code) builds to the same result as its purely textual flattening" % (2 if tier == "quick" else 3))
+        mc["broken_variant"] = "substituting an argument without keeping it a unit violates HandExpanded after %d states" % rb.distinct
+        return mc
+    finally:
+        sc.cleanup()
+
+
 def check_c09(prop, tier, seed, devices):
     rnd = random.Random(seed)
+    mc = mc_macro(tier)
     bodies = macro_bodies()
     by_name = {}
     for n, k, b in bodies:
@@ -1446,7 +1478,7 @@ def check_c09(prop, tier, seed, devices):
                 und = [l for l in copy.deepcopy(prog)]
                 und.append(call("nosuchmacro", R(1)))
                 cases.append(Case(und, tag="macro.undefined"))
-    return run_cases(prop, tier, seed, cases, devices, keyf=default_key, extra=[pipeline_extra(sample=1500 if tier == "quick" else 15000, seed=seed)],
+    return run_cases(prop, tier, seed, cases, devices, keyf=default_key, mc=mc, extra=[pipeline_extra(sample=1500 if tier == "quick" else 15000, seed=seed)],
                      rule="%d macro bodies (register, repeated, one operator of every precedence level on either side of the parameter, data, "
                           "index forms, conditionals on parameters, nested calls with permuted parameters, bodies switching to the data and EEPROM "
                           "segment) x seeded argument sets (registers, index forms, literals, a+b, (a+b), a*b, -a, a<<b|c, symbols) x placement "
